@@ -107,6 +107,10 @@ def ref_encode(t, v, o=PLAIN, tvmap=None):
     if k == "enum":
         return v.value
     if k == "stype":
+        ann = tinfo.stype_annotations(ti.type)
+        if ann:
+            # use_annotations=True: what _serialize returns is rendered according to its return annotation
+            return ref_encode(ann[0], v._serialize(), o, tvmap)
         return v._serialize()
     if k == "literal":
         for lv in ti.args:
@@ -262,6 +266,9 @@ def ref_decode(t, d, tvmap=None, o=PLAIN):
     if k == "enum":
         return ti.type(d)
     if k == "stype":
+        ann = tinfo.stype_annotations(ti.type)
+        if ann:
+            return ti.type._deserialize(ref_decode(ann[1], d, tvmap, o))
         return ti.type._deserialize(d)
     if k == "literal":
         for lv in ti.args:
